@@ -227,9 +227,11 @@ PROPS = {
         "thorough_shards": 4,
     },
     "C17": {
-        "harness": "c17", "driver": "echo",
-        "lean_modules": ["BleveModel.Props.C17"],
-        "rule": ("(1) random query trees of the C02 family marshalled, re-parsed by ParseQuery (twice) and executed next to the original "
+        "harness": "c17", "driver": "c17",
+        "lean_modules": ["BleveModel.Props.C17", "BleveModel.Props.QueryString"],
+        "rule": ("(0) the Lean model of the query-string lexer and grammar (Model/QueryString) against the Go lexer (token streams through the verif export "
+                 "VerifLexQueryString) and QueryStringQuery.Parse (clause lists) on fixed edge inputs, inputs written from the documented grammar and "
+                 "arbitrary rune strings; " "(1) random query trees of the C02 family marshalled, re-parsed by ParseQuery (twice) and executed next to the original "
                  "on scorch and upsidedown indexes; (2) random search requests (custom sort objects with type/mode/missing, facets "
                  "with prefix filter / numeric / date ranges, fields, highlight, locations, score none, paging) through JSON and "
                  "executed; (3) query strings generated from the documented grammar (+/- prefixes, field scoping, words, phrases, "
@@ -240,7 +242,8 @@ PROPS = {
         "trusted_base": COMMON_TB + ["encoding/json", "the go/ast extractor of the ParseQuery decision list and struct tags (harness/cmd/extract/dispatch.go)",
                                      "goyacc-generated parser tables (exercised, not modelled)"],
         "assumptions": ["word~N^B (suffixes glued) is outside the documented syntax; the generator separates them by a space", LEVEL_NOTE],
-        "floors": {"query-json/results": 100, "qs-grammar/results": 100, "request-json/results": 40, "qs-fuzz/probe-after": 300},
+        "floors": {"query-json/results": 100, "qs-grammar/results": 100, "request-json/results": 40, "qs-fuzz/probe-after": 300,
+                   "qs-model-grammar/lex": 1000, "qs-model-grammar/parse": 300, "qs-model-fuzz/lex": 1000, "qs-model-fixed/lex": 50},
         "thorough_shards": 8,
     },
     "C16": {
